@@ -1076,6 +1076,10 @@ def check_c16(tier, seed, log=print):
     srcs += [F.enum(['#[logos(skip "[ \\t\\n]+")]'], ['#[regex("\\\\w+")] Word,', '#[regex("\\\\d+", priority = 5)] Num,', '#[regex("[\\\\p{Greek}]+")] Greek,', '#[token("λ")] Lambda,']),
              F.enum([], ['#[regex("[a-f]+x")] A,', '#[regex("[g-m]+y")] B,', '#[regex("[n-z]+z")] C,', '#[regex("[0-4]+w")] Dd,', '#[regex("[5-9]+v")] E,', '#[regex("[!-/]+u")] Ff,']),
              F.enum([], ['#[regex("a", priority = 1)] A,', '#[regex("[a-z]", priority = 1)] B,', '#[regex("[a-c]", priority = 1)] C,'])]
+    # (round 29) generated names: `lifetime = none` on enums that declare the names the fresh lifetime would take
+    srcs += [F.enum(['#[logos(lifetime = none)]'], ["#[regex(\"[a-z]+\", |lex| \"x\")] At(&'s str),", '#[token("=")] Eq,'], name="T<'s>"),
+             F.enum(['#[logos(lifetime = none)]'], ["#[regex(\"[a-z]+\", |lex| \"x\")] At(&'s str),", "#[regex(\"[0-9]+\", |lex| \"y\")] Bt(&'s_ str),"], name="T<'s, 's_>"),
+             F.enum(['#[logos(lifetime = none)]'], ["#[regex(\"[a-z]+\", |lex| \"x\")] At(&'a str),"], name="T<'a>")]
     srcs += [c['src'] for c in F.fam_c08(R, 30)]
     # definitions that share the text of a literal but differ in its context (the subpattern a reference is bound to, the
     # flags, the lexer mode): the output for a definition must not depend on what was generated before it
